@@ -492,7 +492,7 @@ fn hooked<T: Send + 'static>(f: impl FnOnce() -> gm_sm2::error::Sm2Result<T> + S
     }
 }
 
-struct KxRun { t_ra: bool, t_rb: bool, t_sb: bool, t_sa: bool, kind: String, klen: usize, ida: String, idb: String, ra_script: Vec<[u8; 32]>, rb_script: Vec<[u8; 32]>, da: Vec<u8>, db: Vec<u8> }
+struct KxRun { t_ra: bool, t_rb: bool, t_sb: bool, t_sa: bool, kind: String, klen: usize, ida: String, idb: String, ra_script: Vec<[u8; 32]>, rb_script: Vec<[u8; 32]>, da: Vec<u8>, db: Vec<u8>, forge: Option<(Vec<u8>, Vec<u8>, Vec<u8>)> }
 
 fn kx_run(t: &mut Tracer, sess: &str, run: &KxRun, rng: &mut Rng) {
     use std::sync::{Arc, Mutex};
@@ -518,14 +518,19 @@ fn kx_run(t: &mut Tracer, sess: &str, run: &KxRun, rng: &mut Rng) {
     t.emit(sess, "kx.step2", with(json!({"d": bytes(&kb.d), "r": bytes(&r_b), "ra_in": pt_json(&ra_recv), "rb_out": pt_json(&rb), "sb": bytes(&sb), "key": bytes(&key_b),
         "tamper": tam(run.t_ra), "outcome": o2.name(), "detail": o2.detail()})));
     if o2.ok().is_none() { return; }
-    let rb_recv = if run.t_rb { tamper_point(&rb, &run.kind, rng) } else { rb };
-    let sb_recv = if run.t_sb { tamper_hash(&sb, &run.kind, rng) } else { sb };
+    let mut rb_recv = if run.t_rb { tamper_point(&rb, &run.kind, rng) } else { rb };
+    let mut sb_recv = if run.t_sb { tamper_hash(&sb, &run.kind, rng) } else { sb };
+    // the malicious responder of the plan: an off-curve R_B with the S_B that matches it (computed by the specification)
+    if let Some((x, y, s)) = &run.forge {
+        rb_recv = Point { x: verif::fp_to_mont(&be_u256(x)), y: verif::fp_to_mont(&be_u256(y)), z: verif::fp_to_mont(&[1, 0, 0, 0]) };
+        sb_recv = b32(s);
+    }
     // step 3
     let a3 = a.clone();
     let (o3, _) = hooked(move || a3.lock().unwrap().exchange_3(&rb_recv, sb_recv), vec![]);
     let key_a = a.lock().unwrap().verif_state().0.unwrap_or_default();
     let sa = o3.ok().cloned().unwrap_or([0u8; 32]);
-    let t3 = if run.t_rb || run.t_sb { run.kind.clone() } else if run.t_ra { format!("after-{}", run.kind) } else { "none".into() };
+    let t3 = if run.forge.is_some() { "offcurve-forged".to_string() } else if run.t_rb || run.t_sb { run.kind.clone() } else if run.t_ra { format!("after-{}", run.kind) } else { "none".into() };
     t.emit(sess, "kx.step3", with(json!({"d": bytes(&ka.d), "r": bytes(&r_a), "rb_in": pt_json(&rb_recv), "sb_in": bytes(&sb_recv), "sa": bytes(&sa), "key": bytes(&key_a),
         "tamper": t3, "outcome": o3.name(), "detail": o3.detail()})));
     // step 4: the adversary delivers SA (possibly altered), or junk if A sent nothing
@@ -533,7 +538,7 @@ fn kx_run(t: &mut Tracer, sess: &str, run: &KxRun, rng: &mut Rng) {
     let b4 = b.clone();
     let (o4, _) = hooked(move || b4.lock().unwrap().exchange_4(sa_recv, &ra_recv), vec![]);
     let acc = o4.ok().cloned().unwrap_or(false);
-    let t4 = if o3.ok().is_none() { "injected".to_string() } else if run.t_sa { run.kind.clone() } else if run.t_ra || run.t_rb || run.t_sb { format!("after-{}", run.kind) } else { "none".into() };
+    let t4 = if run.forge.is_some() && o3.ok().is_some() { "after-offcurve-forged".to_string() } else if o3.ok().is_none() { "injected".to_string() } else if run.t_sa { run.kind.clone() } else if run.t_ra || run.t_rb || run.t_sb { format!("after-{}", run.kind) } else { "none".into() };
     t.emit(sess, "kx.step4", with(json!({"d": bytes(&kb.d), "r": bytes(&r_b), "ra_in": pt_json(&ra_recv), "sa_in": bytes(&sa_recv), "accepted": if acc { 1 } else { 0 },
         "tamper": t4, "outcome": o4.name(), "detail": o4.detail()})));
 }
@@ -548,21 +553,26 @@ pub fn drive_kex(t: &mut Tracer, tier: &str, seed: u64, plan: Option<String>) {
     let annex = KxRun { t_ra: false, t_rb: false, t_sb: false, t_sa: false, kind: "none".into(), klen: 16, ida: "1234567812345678".into(), idb: "1234567812345678".into(),
         ra_script: vec![b32(&hexb("d4de15474db74d06491c440d305e012400990f3e390c7e87153c12db2ea60bb3"))],
         rb_script: vec![b32(&hexb("7e07124814b309489125eaed101113164ebf0f3458c5bd88335c1f9d596243d6"))],
-        da: hexb("81eb26e941bb5af16df116495f90695272ae2cd63d6c4ae1678418be48230029"), db: hexb("785129917d45a9ea5437a59356b82338eaadda6ceb199088f14ae10defa229b5") };
+        da: hexb("81eb26e941bb5af16df116495f90695272ae2cd63d6c4ae1678418be48230029"), db: hexb("785129917d45a9ea5437a59356b82338eaadda6ceb199088f14ae10defa229b5"), forge: None };
     kx_run(t, &sess(), &annex, &mut rng);
     // honest runs: klen 1..=200 (sampled in quick), random and edge keys, free ephemeral scalars
     let klens: Vec<usize> = if thorough { (1..=200).collect() } else { vec![1, 16, 31, 32, 33, 64, 100, 200] };
     for (i, klen) in klens.iter().enumerate() {
         let run = KxRun { t_ra: false, t_rb: false, t_sb: false, t_sa: false, kind: "none".into(), klen: *klen, ida: format!("alice{}", i), idb: if i % 3 == 0 { "1234567812345678".into() } else { format!("bob-{}", i) },
-            ra_script: vec![], rb_script: vec![], da: rk(&mut rng), db: rk(&mut rng) };
+            ra_script: vec![], rb_script: vec![], da: rk(&mut rng), db: rk(&mut rng), forge: None };
         kx_run(t, &sess(), &run, &mut rng);
     }
     // every tamper subset x kind from the TLC plan
-    for (i, v) in read_plan(&plan).iter().enumerate() {
+    for v in read_plan(&plan).iter().filter(|v| v["kind"] == "forge" && v["usable"] == 1) {
+        let run = KxRun { t_ra: false, t_rb: false, t_sb: false, t_sa: false, kind: "none".into(), klen: 16, ida: "1234567812345678".into(), idb: "1234567812345678".into(),
+            ra_script: vec![b32(&arr(&v["ra"]))], rb_script: vec![], da: arr(&v["da"]), db: arr(&v["db"]), forge: Some((arr(&v["rbx"]), arr(&v["rby"]), arr(&v["sb"]))) };
+        kx_run(t, &sess(), &run, &mut rng);
+    }
+    for (i, v) in read_plan(&plan).iter().filter(|v| v["kind"] != "forge").enumerate() {
         let reps = if thorough { 3 } else { 1 };
         for _ in 0..reps {
             let run = KxRun { t_ra: v["ra"] == 1, t_rb: v["rb"] == 1, t_sb: v["sb"] == 1, t_sa: v["sa"] == 1, kind: v["kind"].as_str().unwrap().into(), klen: 16 + (i % 40),
-                ida: "initiator".into(), idb: "responder".into(), ra_script: vec![], rb_script: vec![], da: rk(&mut rng), db: rk(&mut rng) };
+                ida: "initiator".into(), idb: "responder".into(), ra_script: vec![], rb_script: vec![], da: rk(&mut rng), db: rk(&mut rng), forge: None };
             kx_run(t, &sess(), &run, &mut rng);
         }
     }
